@@ -18,6 +18,10 @@ from .calls import _is_docstring
 MAX_PATHS = 4000
 
 
+class _NoMerge(Exception):
+    pass
+
+
 def loop_ordinals(fnode):
     """id(loop node) -> ordinal, in source order, not descending into nested defs/classes."""
     out = {}
@@ -217,9 +221,89 @@ class StmtsMixin:
             return k(val, st)
         kwargs.pop("__starstar__", None)
         outs = []
-        for val, s2 in self.inline_stmt_closure(clo, args, kwargs, st):
+        results = self.inline_stmt_closure(clo, args, kwargs, st)
+        if len(results) > 1:
+            merged = self.merge_results(results, st)
+            if merged is not None:
+                results = [merged]
+        for val, s2 in results:
             outs.extend(k(val, s2))
         return outs
+
+    # ------------------------------------------------------------------ path merging
+    def merge_results(self, results, st0):
+        """Join the normal outcomes of an inlined closure into one state (ite over the path
+        conditions) when they differ only in variable values / presence of dict entries.
+        Returns (val, state) or None when the outcomes cannot be joined."""
+        try:
+            vals = [v for v, _ in results]
+            sts = [s for _, s in results]
+            base = sts[0]
+            # common prefix of the path conditions
+            n = min(len(s.pc) for s in sts)
+            k = 0
+            while k < n and all(s.pc[k] is sts[0].pc[k] or z3.eq(s.pc[k], sts[0].pc[k]) for s in sts):
+                k += 1
+            conds = [z3.And(s.pc[k:]) if len(s.pc) > k else z3.BoolVal(True) for s in sts]
+            if any(s.guards for s in sts):
+                return None
+            chain = [e.id for e in base._chain()]
+            if any(s.cur != base.cur or [e.id for e in s._chain()] != chain for s in sts):
+                return None
+            out = base.copy()
+            # scope levels of finished calls are dead: keep only the live chain
+            out.levels = {i: out.levels[i] for i in chain}
+            out.pc = list(base.pc[:k]) + [z3.Or(conds)]
+            for lid, lvl in out.levels.items():
+                names = set()
+                for s in sts:
+                    names |= set(s.levels[lid].vars)
+                for name in names:
+                    cands = [s.levels[lid].vars.get(name) for s in sts]
+                    if any(c is None for c in cands):
+                        if all(c is None or c is cands[0] for c in cands):
+                            continue
+                        return None
+                    lvl.vars[name] = self.join_vals(cands, conds)
+            val = self.join_vals(vals, conds)
+            return val, out
+        except _NoMerge:
+            return None
+
+    def join_vals(self, cands, conds):
+        first = cands[0]
+        if all(c is first for c in cands):
+            return first
+        if all(isinstance(c.shape, ConcS) for c in cands):
+            objs = [c.d for c in cands]
+            if all(o is objs[0] for o in objs):
+                return first
+            if all(isinstance(o, PyMap) for o in objs):
+                if any(o.default is not None for o in objs):
+                    raise _NoMerge()
+                keys = []
+                for o in objs:
+                    for kk in o.items:
+                        if kk not in keys:
+                            keys.append(kk)
+                m = PyMap(kind=objs[0].kind)
+                for kk in keys:
+                    have = [(o.items[kk], o.present.get(kk, z3.BoolVal(True)), c) for o, c in zip(objs, conds) if kk in o.items]
+                    pres = z3.Or([z3.And(c, p) for _, p, c in have])
+                    v = have[-1][0]
+                    for vv, p, c in reversed(have[:-1]):
+                        v = V.ite(c, self.as_sym(vv), self.as_sym(v))
+                    m.items[kk] = v
+                    if not z3.is_true(z3.simplify(pres)):
+                        m.present[kk] = pres
+                return V.vconc(m)
+            raise _NoMerge()
+        if any(isinstance(c.shape, ConcS) for c in cands):
+            raise _NoMerge()
+        v = cands[-1]
+        for c, cond in reversed(list(zip(cands[:-1], conds[:-1]))):
+            v = V.ite(cond, c, v)
+        return v
 
     def inline_stmt_closure(self, c: Closure, args, kwargs, st):
         if self.inline_depth > 8:
@@ -374,6 +458,7 @@ class StmtsMixin:
             else:
                 raise OutOfSubset("store into concrete-key dict with symbolic key")
             m.items[key] = val
+            m.present.pop(key, None)
             return V.vconc(m)
         if isinstance(s, MapS):
             k = V.leaves(V.coerce(self.as_sym(idx), s.key))[0]
